@@ -102,3 +102,42 @@ Example C02_normal_form_example :
   check Properties.C01.ex_schema Properties.C01.ex_doc = true /\ NormalDoc Properties.C01.ex_schema Properties.C01.ex_doc /\
   canon_list Properties.C01.ex_schema (sl_content Properties.C01.ex_slice) = true.
 Proof. split; [vm_compute; reflexivity|]. split; [split; vm_compute; reflexivity|vm_compute; reflexivity]. Qed.
+
+(* ---- WHEN Node.replace succeeds, for the commonest shape of edit ----
+   A closed, non-empty slice put between two positions that lie in the same parent node (same depth, same ancestors: typing,
+   pasting closed content, replacing a selection inside one textblock or container).  [a] / [b]: the parent's children before
+   / after the range, as Fragment.cut gives them (that the two cuts succeed says the positions do not split a surrogate
+   pair).  Node.replace returns a document EXACTLY WHEN the parent's new child sequence - a, the slice's content, b, with
+   adjacent equally-marked text merged - is valid content for the parent's type; when it is not, it raises ReplaceError and
+   nothing else. *)
+From Coq Require Import NArith.
+From PM Require Import Proofs.ReplaceSafe Proofs.ReplaceSuccess.
+Theorem C02_flat_closed_replace_succeeds_iff_valid : forall s doc from to sl rf rt parent a b,
+  (exists ty at_ m cs, doc = Elem ty at_ m cs) ->
+  resolve s doc from = Ok rf -> resolve s doc to = Ok rt -> from <= to ->
+  rp_depth rf = rp_depth rt -> (forall d, d < rp_depth rf -> rp_index rf d = rp_index rt d) ->
+  sl_open_start sl = 0 -> sl_open_end sl = 0 -> frag_size s (sl_content sl) <> 0 ->
+  rp_parent rf = Ok parent ->
+  frag_cut s (node_content parent) 0 (rp_parent_offset rf) = Ok a ->
+  frag_cut s (node_content parent) (rp_parent_offset rt) (frag_size s (node_content parent)) = Ok b ->
+  ((exists d', node_replace s doc from to sl = Ok d') <->
+   valid_content s (node_ty s parent) (frag_append (frag_append a (sl_content sl)) b) = true) /\
+  (forall e, node_replace s doc from to sl = Err e -> e = ErrReplace).
+Proof. exact flat_closed_replace. Qed.
+Print Assumptions C02_flat_closed_replace_succeeds_iff_valid.
+
+(* the hypotheses are met: typing "x" between "a" and "b" in the first paragraph of the example document *)
+Example C02_flat_replace_example :
+  let s := Properties.C01.ex_schema in let doc := Properties.C01.ex_doc in
+  let sl := SL [Text [120%N] []] 0 0 in
+  exists rf parent a b,
+    resolve s doc 2 = Ok rf /\ rp_parent rf = Ok parent /\
+    frag_cut s (node_content parent) 0 (rp_parent_offset rf) = Ok a /\
+    frag_cut s (node_content parent) (rp_parent_offset rf) (frag_size s (node_content parent)) = Ok b /\
+    valid_content s (node_ty s parent) (frag_append (frag_append a (sl_content sl)) b) = true /\
+    exists d', node_replace s doc 2 2 sl = Ok d'.
+Proof.
+  cbv zeta. eexists. eexists. eexists. eexists.
+  split; [vm_compute; reflexivity|]. split; [vm_compute; reflexivity|]. split; [vm_compute; reflexivity|].
+  split; [vm_compute; reflexivity|]. split; [vm_compute; reflexivity|]. eexists. vm_compute. reflexivity.
+Qed.
